@@ -3,52 +3,25 @@
 
    [m_apply d ty] is the model-level denotation of a declarator: the mty that parse.c's constructors build when
    the derivations of d are applied to ty inside-out (pointers first, then - through the two passes - the
-   suffixes, right to left).  Main result [declarator_print]:
+   suffixes, right to left).  [chk d ty] collects every "array too large" test parse.c performs on the way
+   (those of the dummy passes included).  Main result [declarator_print]:
 
-       declarator fuel (print_decl d ++ rest) ty = Ok (name_of d, m_apply d ty, rest)
+       declarator fuel (print_decl d ++ rest) ty
+       = if chk d ty then Ok (name_of d, m_apply d ty, rest) else TooLarge
 
    for every declarator d (any nesting of pointers, parentheses, arrays, functions with parameters, identifier
-   present or omitted) that satisfies [c11_ok] (Spec) and [chibicc_ok] (below: the one shape chibicc mis-parses),
-   every start type ty, every continuation `rest` that starts with "," ")" or an uninvolved token, and every fuel
-   above an explicit cost, in particular the fuel of the entry point [parse_declarator].
-   The same for abstract_declarator / typename when the identifier is omitted.  Part 2 (DeclaratorTypes.v)
-   relates m_apply to the C11 type, part 3 (DeclaratorSizes.v) to the psABI numbers. *)
+   present or omitted) that satisfies [c11_ok] (Spec), every start type ty, every continuation `rest` that starts
+   with "," ")" or an uninvolved token, and every fuel above an explicit cost, in particular the fuel of the entry
+   point [parse_declarator].  The same for abstract_declarator / typename when the identifier is omitted.
+   (Update 2: follows the repaired parse.c - fbdf355, 8507b9f, 053b61b; the former predicate chibicc_ok is gone:
+   nothing of the abstract syntax is excluded any more.)
+   Part 2 (DeclaratorTypes.v) relates m_apply to the C11 type, part 3 (DeclaratorSizes.v) to the psABI numbers
+   and [chk] to sizes of 2^31 bytes and more. *)
 From Coq Require Import List ZArith Bool Lia Arith.
 From Chibicc Require Import Spec.DeclSyntax Spec.DeclSpec6_7_6 Model.Declarator.
 Import ListNotations.
 
-(* ------------------------------------------------------------------ what chibicc does not get right
-   (1) A parameter list written directly behind an OMITTED identifier, `int (int)` / `int ()` as an abstract
-       declarator: parse.c takes every "(" that follows the pointers for a parenthesised declarator.
-   (2) An array bound of 2^31 or more: array_len is a C int.
-   (Both are shown to fail outside this predicate: DeclaratorRefute.v.) *)
 Definition is_empty_dd (dd : direct) : bool := match dd with DIdent None => true | _ => false end.
-
-Fixpoint chibicc_ok (d : decl) : bool :=
-  match d with
-  | DPtr _ d' => chibicc_ok d'
-  | DDirect dd => chibicc_ok_dd dd
-  end
-with chibicc_ok_dd (dd : direct) : bool :=
-  match dd with
-  | DIdent _ => true
-  | DParen d => chibicc_ok d
-  | DArray dd' n => chibicc_ok_dd dd' && match n with Some k => (k <? 2147483648)%Z | None => true end
-  | DFunc dd' ps => negb (is_empty_dd dd') && chibicc_ok_dd dd' && chibicc_ok_params ps
-  end
-with chibicc_ok_params (ps : params) : bool :=
-  match ps with
-  | PUnspec => true
-  | PVoid => true
-  | PList l _ => chibicc_ok_plist l
-  end
-with chibicc_ok_plist (l : plist) : bool :=
-  match l with
-  | POne p => chibicc_ok_param p
-  | PCons p l' => chibicc_ok_param p && chibicc_ok_plist l'
-  end
-with chibicc_ok_param (p : param) : bool :=
-  match p with Param _ d => chibicc_ok d end.
 
 (* ------------------------------------------------------------------ the denotation on model types *)
 Definition len_of (n : option Z) : Z := match n with Some k => int32 k | None => (-1)%Z end.
@@ -99,6 +72,43 @@ Definition m_suf (s : suffix) (ty : mty) : mty :=
   end.
 Definition m_sufs (l : list suffix) (ty : mty) : mty := fold_right m_suf ty l.
 
+(* ------------------------------------------------------------------ the "array too large" tests on the way *)
+Definition fit (n : option Z) (elem : mty) : bool :=
+  match n with Some k => negb (too_large k elem) | None => true end.
+
+Fixpoint chk (d : decl) (ty : mty) : bool :=
+  match d with
+  | DPtr _ d' => chk d' (MPtr ty)
+  | DDirect dd => chk_dd dd ty
+  end
+with chk_dd (dd : direct) (ty : mty) : bool :=
+  match dd with
+  | DIdent _ => true
+  | DParen d => chk d dummy && chk d ty               (* the dummy pass, then the real one *)
+  | DArray dd' n => fit n ty && chk_dd dd' (array_of ty (len_of n))
+  | DFunc dd' ps => chk_params ps && chk_dd dd' (MFunc ty (m_params ps) (m_variadic ps))
+  end
+with chk_params (ps : params) : bool :=
+  match ps with
+  | PUnspec => true
+  | PVoid => true
+  | PList l _ => chk_plist l
+  end
+with chk_plist (l : plist) : bool :=
+  match l with
+  | POne p => chk_param p
+  | PCons p l' => chk_param p && chk_plist l'
+  end
+with chk_param (p : param) : bool :=
+  match p with Param b d => chk d (MBase b) end.
+
+Fixpoint chk_sufs (l : list suffix) (ty : mty) : bool :=
+  match l with
+  | [] => true
+  | SArr n :: r => chk_sufs r ty && fit n (m_sufs r ty)
+  | SFun ps :: r => chk_sufs r ty && chk_params ps
+  end.
+
 (* ------------------------------------------------------------------ fuel: an explicit cost *)
 Fixpoint cost (d : decl) : nat :=
   match d with
@@ -128,8 +138,8 @@ with cost_param (p : param) : nat :=
 
 (* ------------------------------------------------------------------ one-step equations of the model *)
 Definition direct_part (f : nat) (t1 : list tok) (ty1 : mty) : res (option ident * mty * list tok) :=
-  match t1 with
-  | TLParen :: inner =>
+  match nested_start t1 with
+  | Some inner =>
       do r1 <- declarator f inner dummy;
       match snd r1 with
       | TRParen :: t3 =>
@@ -138,7 +148,7 @@ Definition direct_part (f : nat) (t1 : list tok) (ty1 : mty) : res (option ident
           Ok (fst (fst r3), snd (fst r3), snd r2)
       | _ => Err
       end
-  | _ =>
+  | None =>
       let nm := ident_opt t1 in
       do r2 <- type_suffix f (snd nm) ty1;
       Ok (fst nm, fst r2, snd r2)
@@ -158,13 +168,13 @@ Lemma type_suffix_S f toks ty : type_suffix (S f) toks ty = type_suffix_body f t
 Proof. reflexivity. Qed.
 
 Definition array_dimensions_body (f : nat) (toks : list tok) (ty : mty) : res (mty * list tok) :=
-  match skip_static_restrict toks with
+  match skip_static_quals toks with
   | TRBrack :: r =>
       do r2 <- type_suffix f r ty;
       Ok (array_of (fst r2) (-1), snd r2)
   | TNum n :: TRBrack :: r =>
       do r2 <- type_suffix f r ty;
-      Ok (array_of (fst r2) (int32 n), snd r2)
+      if too_large n (fst r2) then TooLarge else Ok (array_of (fst r2) (int32 n), snd r2)
   | _ => Err
   end.
 Lemma array_dimensions_S f toks ty : array_dimensions (S f) toks ty = array_dimensions_body f toks ty.
@@ -200,8 +210,8 @@ Lemma params_loop_S f toks ret acc : params_loop (S f) toks ret acc = params_loo
 Proof. reflexivity. Qed.
 
 Definition abstract_part (f : nat) (t1 : list tok) (ty1 : mty) : res (mty * list tok) :=
-  match t1 with
-  | TLParen :: inner =>
+  match nested_start t1 with
+  | Some inner =>
       do r1 <- abstract_declarator f inner dummy;
       match snd r1 with
       | TRParen :: t3 =>
@@ -210,7 +220,7 @@ Definition abstract_part (f : nat) (t1 : list tok) (ty1 : mty) : res (mty * list
           Ok (fst r3, snd r2)
       | _ => Err
       end
-  | _ => type_suffix f t1 ty1
+  | None => type_suffix f t1 ty1
   end.
 Lemma abstract_declarator_S f toks ty :
   abstract_declarator (S f) toks ty
@@ -306,11 +316,64 @@ Proof.
   rewrite E. reflexivity.
 Qed.
 
+(* ------------------------------------------------------------------ where a nested declarator starts *)
+Lemma print_decl_nonempty : forall d, is_empty_decl d = false ->
+  exists t l, print_decl d = t :: l /\ decl_start t = true.
+Proof.
+  intros d H. pose proof (print_decl_hd d) as Hh.
+  destruct (print_decl d) as [|t l] eqn:E.
+  - exfalso. destruct d as [q d'|dd]; cbn [print_decl] in E; [discriminate|].
+    destruct dd as [[x|]|d|dd' n|dd' ps]; cbn [print_dd] in E.
+    + discriminate.
+    + discriminate H.
+    + discriminate.
+    + destruct n; apply app_eq_nil in E; destruct E; discriminate.
+    + apply app_eq_nil in E; destruct E; discriminate.
+  - exists t, l. split; [reflexivity|exact Hh].
+Qed.
+
+Lemma nested_start_paren : forall d X, is_empty_decl d = false ->
+  nested_start (TLParen :: print_decl d ++ X) = Some (print_decl d ++ X).
+Proof.
+  intros d X H. destruct (print_decl_nonempty d H) as [t [l [E Ht]]]. rewrite E. cbn [app nested_start].
+  destruct t; try discriminate Ht; reflexivity.
+Qed.
+
+Lemma plist_first : forall l, exists b d X, print_plist l = TBase b :: print_decl d ++ X /\
+  (c11_ok_plist l = true -> c11_ok_param (Param b d) = true) /\ (X = [] \/ exists X', X = TComma :: X').
+Proof.
+  destruct l as [[b d]|[b d] l'].
+  - exists b, d, []. cbn [print_plist print_param c11_ok_plist]. rewrite app_nil_r. auto.
+  - exists b, d, (TComma :: print_plist l'). cbn [print_plist print_param c11_ok_plist]. split; [reflexivity|].
+    split; [|right; eauto]. intros H. apply andb_prop in H. exact (proj1 H).
+Qed.
+
+(* a parameter list starts with ")" or a type keyword: the "(" in front of it is NOT a nested declarator *)
+Lemma nested_start_params : forall ps X, nested_start (TLParen :: print_params ps ++ TRParen :: X) = None.
+Proof.
+  intros ps X. destruct ps as [| |l v]; try reflexivity.
+  cbn [print_params]. destruct (plist_first l) as [b [d [Y [E _]]]]. rewrite E. reflexivity.
+Qed.
+
+Ltac norm_app := repeat (first [rewrite <- app_assoc | rewrite app_nil_r | progress cbn [app]]).
+
+Lemma plain_sufs : forall l rest, stops rest ->
+  nested_start (print_sufs l ++ rest) = None /\ ident_opt (print_sufs l ++ rest) = (None, print_sufs l ++ rest).
+Proof.
+  intros l rest Hs. destruct l as [|s l].
+  - cbn [print_sufs app]. destruct rest as [|t r]; [split; reflexivity|].
+    cbn [stops hd_in] in Hs. destruct t; try discriminate Hs; split; reflexivity.
+  - destruct s as [n|ps].
+    + destruct n; split; reflexivity.
+    + cbn [print_sufs print_suf]. norm_app. split; [apply nested_start_params|reflexivity].
+Qed.
+
 (* ------------------------------------------------------------------ suffix chains *)
-(* [good c l]: with fuel >= c, type_suffix parses the written suffixes l completely and builds m_sufs l *)
+(* [good c l]: with fuel >= c, type_suffix parses the written suffixes l completely and builds m_sufs l,
+   or reports "array too large" - exactly when one of its tests fires *)
 Definition good (c : nat) (l : list suffix) : Prop :=
   forall fuel ty rest, stops rest -> c <= fuel ->
-    type_suffix fuel (print_sufs l ++ rest) ty = Ok (m_sufs l ty, rest).
+    type_suffix fuel (print_sufs l ++ rest) ty = if chk_sufs l ty then Ok (m_sufs l ty, rest) else TooLarge.
 
 Lemma type_suffix_stops : forall f rest ty, stops rest -> type_suffix (S f) rest ty = Ok (ty, rest).
 Proof.
@@ -320,7 +383,7 @@ Qed.
 
 Lemma good_nil : good 1 [].
 Proof.
-  intros fuel ty rest Hs Hf. destruct fuel as [|f]; [lia|]. cbn [print_sufs app m_sufs fold_right].
+  intros fuel ty rest Hs Hf. destruct fuel as [|f]; [lia|]. cbn [print_sufs app m_sufs fold_right chk_sufs].
   apply type_suffix_stops, Hs.
 Qed.
 
@@ -329,52 +392,53 @@ Proof.
   intros c l n Hg fuel ty rest Hs Hf.
   destruct fuel as [|[|f]]; [lia|lia|].
   assert (Hc : c <= f) by lia.
-  rewrite type_suffix_S. cbn [print_sufs m_sufs fold_right].
+  rewrite type_suffix_S. cbn [print_sufs m_sufs fold_right chk_sufs].
   destruct n as [n|]; cbn [print_suf app type_suffix_body]; rewrite array_dimensions_S;
-    unfold array_dimensions_body; cbn [skip_static_restrict];
-    rewrite (Hg f ty rest Hs Hc); reflexivity.
+    unfold array_dimensions_body; cbn [skip_static_quals];
+    rewrite (Hg f ty rest Hs Hc); destruct (chk_sufs l ty); cbn [bind fst snd andb fit m_suf len_of]; try reflexivity.
+  fold (m_sufs l ty). destruct (too_large n (m_sufs l ty)); reflexivity.
 Qed.
-
-Ltac norm_app := repeat (first [rewrite <- app_assoc | rewrite app_nil_r | progress cbn [app]]).
 
 Lemma app_cons_assoc : forall (A : Type) (l : list A) x r, (l ++ [x]) ++ r = l ++ x :: r.
 Proof. intros A l x r. rewrite <- app_assoc. reflexivity. Qed.
 
 (* ------------------------------------------------------------------ the mutual induction *)
 Definition P_decl (d : decl) : Prop :=
-  c11_ok d = true -> chibicc_ok d = true ->
+  c11_ok d = true ->
   forall fuel ty rest, stops rest -> cost d <= fuel ->
-    declarator fuel (print_decl d ++ rest) ty = Ok (name_of d, m_apply d ty, rest).
+    declarator fuel (print_decl d ++ rest) ty
+    = if chk d ty then Ok (name_of d, m_apply d ty, rest) else TooLarge.
 
 Definition P_dd (dd : direct) : Prop :=
-  c11_ok_dd dd = true -> chibicc_ok_dd dd = true ->
+  c11_ok_dd dd = true ->
   forall c l, good c l ->
     (is_func_dd dd = true -> l = []) ->
-    (is_empty_dd dd = true -> match l with SFun _ :: _ => False | _ => True end) ->
   forall fuel ty rest, stops rest -> cost_dd dd + c <= fuel ->
     direct_part fuel (print_dd dd ++ print_sufs l ++ rest) ty
-    = Ok (name_of_dd dd, m_apply_dd dd (m_sufs l ty), rest).
+    = if chk_dd dd (m_sufs l ty) && chk_sufs l ty
+      then Ok (name_of_dd dd, m_apply_dd dd (m_sufs l ty), rest) else TooLarge.
 
 Definition P_params (ps : params) : Prop :=
-  c11_ok_params ps = true -> chibicc_ok_params ps = true ->
+  c11_ok_params ps = true ->
   forall fuel ret rest, cost_params ps <= fuel ->
     func_params fuel (print_params ps ++ TRParen :: rest) ret
-    = Ok (MFunc ret (m_params ps) (m_variadic ps), rest).
+    = if chk_params ps then Ok (MFunc ret (m_params ps) (m_variadic ps), rest) else TooLarge.
 
 Definition ptail (v : bool) (rest : list tok) : list tok :=
   (if v then [TComma; TEllipsis] else []) ++ TRParen :: rest.
 
 Definition P_plist (l : plist) : Prop :=
-  c11_ok_plist l = true -> chibicc_ok_plist l = true ->
+  c11_ok_plist l = true ->
   forall fuel ret acc rest v, cost_plist l <= fuel ->
     params_loop fuel ((if is_nil acc then [] else [TComma]) ++ print_plist l ++ ptail v rest) ret acc
-    = Ok (MFunc ret (rev acc ++ m_plist l) v, rest).
+    = if chk_plist l then Ok (MFunc ret (rev acc ++ m_plist l) v, rest) else TooLarge.
 
 Definition P_param (p : param) : Prop :=
-  c11_ok_param p = true -> chibicc_ok_param p = true ->
+  c11_ok_param p = true ->
   forall fuel rest, stops rest -> cost_param p <= fuel ->
     match p with Param b d =>
-      declarator fuel (print_decl d ++ rest) (MBase b) = Ok (name_of d, m_apply d (MBase b), rest)
+      declarator fuel (print_decl d ++ rest) (MBase b)
+      = if chk d (MBase b) then Ok (name_of d, m_apply d (MBase b), rest) else TooLarge
     end.
 
 Lemma loop_tail : forall f v rest ret acc,
@@ -389,14 +453,13 @@ Lemma ptail_stops : forall v rest, stops (ptail v rest).
 Proof. intros [|] rest; reflexivity. Qed.
 
 (* one parameter inside the loop *)
-Lemma loop_param : forall f b d X ret acc r,
-  declarator f (print_decl d ++ X) (MBase b) = Ok r ->
+Lemma loop_param : forall f b d X ret acc,
   params_loop (S f) ((if is_nil acc then [] else [TComma]) ++ print_param (Param b d) ++ X) ret acc
-  = params_loop f (snd r) ret ((fst (fst r), adjust_param (snd (fst r))) :: acc).
+  = do r <- declarator f (print_decl d ++ X) (MBase b);
+    params_loop f (snd r) ret ((fst (fst r), adjust_param (snd (fst r))) :: acc).
 Proof.
-  intros f b d X ret acc r H. rewrite params_loop_S.
-  destruct acc as [|a acc]; cbn [is_nil app print_param params_loop_body skip_tok_comma bind param_step param_declspec fst snd];
-    rewrite H; reflexivity.
+  intros f b d X ret acc. rewrite params_loop_S.
+  destruct acc as [|a acc]; reflexivity.
 Qed.
 
 Lemma func_params_loop : forall f toks ret,
@@ -421,15 +484,6 @@ Proof.
   - intros H; apply app_eq_nil in H; destruct H; discriminate.
 Qed.
 
-Lemma plist_first : forall l, exists b d X, print_plist l = TBase b :: print_decl d ++ X /\
-  (c11_ok_plist l = true -> c11_ok_param (Param b d) = true) /\ (X = [] \/ exists X', X = TComma :: X').
-Proof.
-  destruct l as [[b d]|[b d] l'].
-  - exists b, d, []. cbn [print_plist print_param c11_ok_plist]. rewrite app_nil_r. auto.
-  - exists b, d, (TComma :: print_plist l'). cbn [print_plist print_param c11_ok_plist]. split; [reflexivity|].
-    split; [|right; eauto]. intros H. apply andb_prop in H. exact (proj1 H).
-Qed.
-
 Lemma plist_not_void : forall l v rest r,
   c11_ok_plist l = true -> print_plist l ++ ptail v rest <> TBase LVoid :: TRParen :: r.
 Proof.
@@ -452,103 +506,101 @@ Theorem parse_all :
 Proof.
   apply decl_mutind.
   - (* DPtr *)
-    intros q d IH Hc Hp fuel ty rest Hs Hf. cbn [c11_ok chibicc_ok cost name_of m_apply] in *.
+    intros q d IH Hc fuel ty rest Hs Hf. cbn [c11_ok cost name_of m_apply chk] in *.
     destruct fuel as [|f]; [pose proof (cost_pos d); lia|].
     rewrite declarator_star by exact Hs. apply IH; assumption.
   - (* DDirect *)
-    intros dd IH Hc Hp fuel ty rest Hs Hf. cbn [c11_ok chibicc_ok cost name_of m_apply print_decl] in *.
+    intros dd IH Hc fuel ty rest Hs Hf. cbn [c11_ok cost name_of m_apply print_decl chk] in *.
     destruct fuel as [|f]; [lia|].
     rewrite declarator_S, pointers_nostar by (apply hd_dd_rest, Hs). cbn [fst snd].
     assert (Hg := good_nil).
-    specialize (IH Hc Hp 1 [] Hg (fun _ => eq_refl) (fun _ => I) f ty rest Hs).
-    cbn [print_sufs app m_sufs fold_right] in IH. apply IH. lia.
+    specialize (IH Hc 1 [] Hg (fun _ => eq_refl) f ty rest Hs).
+    cbn [print_sufs app m_sufs fold_right chk_sufs] in IH. rewrite andb_true_r in IH. apply IH. lia.
   - (* DIdent *)
-    intros x _ _ c l Hg _ He fuel ty rest Hs Hf. cbn [cost_dd name_of_dd m_apply_dd] in *.
+    intros x _ c l Hg _ fuel ty rest Hs Hf. cbn [cost_dd name_of_dd m_apply_dd chk_dd andb] in *.
     destruct x as [x|]; cbn [print_dd app].
-    + cbn [direct_part ident_opt fst snd]. rewrite (Hg fuel ty rest Hs) by lia. reflexivity.
-    + specialize (He eq_refl).
-      assert (E : direct_part fuel (print_sufs l ++ rest) ty
-                  = do r2 <- type_suffix fuel (print_sufs l ++ rest) ty; Ok (None, fst r2, snd r2)).
-      { destruct l as [|s l].
-        - cbn [print_sufs app]. destruct rest as [|t r]; [reflexivity|].
-          cbn [stops hd_in] in Hs. destruct t; try discriminate Hs; reflexivity.
-        - destruct s as [n|ps]; [|contradiction]. destruct n; reflexivity. }
-      rewrite E, (Hg fuel ty rest Hs) by lia. reflexivity.
+    + unfold direct_part. cbn [nested_start ident_opt fst snd].
+      rewrite (Hg fuel ty rest Hs) by lia. destruct (chk_sufs l ty); reflexivity.
+    + destruct (plain_sufs l rest Hs) as [E1 E2]. unfold direct_part. rewrite E1, E2. cbn [fst snd].
+      rewrite (Hg fuel ty rest Hs) by lia. destruct (chk_sufs l ty); reflexivity.
   - (* DParen *)
-    intros d IH Hc Hp c l Hg _ _ fuel ty rest Hs Hf.
-    cbn [c11_ok_dd chibicc_ok_dd cost_dd name_of_dd m_apply_dd print_dd] in *.
-    apply andb_prop in Hc. destruct Hc as [_ Hc].
-    cbn [app direct_part]. rewrite <- !app_assoc. cbn [app].
+    intros d IH Hc c l Hg _ fuel ty rest Hs Hf.
+    cbn [c11_ok_dd cost_dd name_of_dd m_apply_dd print_dd chk_dd] in *.
+    apply andb_prop in Hc. destruct Hc as [Hne Hc]. apply negb_true_iff in Hne.
+    cbn [app]. rewrite <- !app_assoc. cbn [app]. unfold direct_part.
+    rewrite (nested_start_paren d _ Hne).
     assert (Hs' : stops (TRParen :: print_sufs l ++ rest)) by reflexivity.
-    rewrite (IH Hc Hp fuel dummy _ Hs') by lia. cbn [bind snd].
-    rewrite (Hg fuel ty rest Hs) by lia. cbn [bind fst snd].
-    rewrite (IH Hc Hp fuel (m_sufs l ty) _ Hs') by lia. reflexivity.
+    rewrite (IH Hc fuel dummy _ Hs') by lia.
+    destruct (chk d dummy); cbn [bind snd andb]; [|reflexivity].
+    rewrite (Hg fuel ty rest Hs) by lia.
+    destruct (chk_sufs l ty); cbn [bind fst snd]; [|rewrite andb_false_r; reflexivity].
+    rewrite (IH Hc fuel (m_sufs l ty) _ Hs') by lia.
+    destruct (chk d (m_sufs l ty)); reflexivity.
   - (* DArray *)
-    intros dd' IH n Hc Hp c l Hg Hfun _ fuel ty rest Hs Hf.
-    cbn [c11_ok_dd chibicc_ok_dd cost_dd name_of_dd m_apply_dd is_func_dd] in *.
+    intros dd' IH n Hc c l Hg Hfun fuel ty rest Hs Hf.
+    cbn [c11_ok_dd cost_dd name_of_dd m_apply_dd is_func_dd chk_dd] in *.
     apply andb_prop in Hc. destruct Hc as [Hc _]. apply andb_prop in Hc. destruct Hc as [Hnf Hc].
-    apply andb_prop in Hp. destruct Hp as [Hp _].
     apply negb_true_iff in Hnf.
     assert (Ep : print_dd (DArray dd' n) ++ print_sufs l ++ rest
                  = print_dd dd' ++ print_sufs (SArr n :: l) ++ rest).
     { destruct n; cbn [print_dd print_sufs print_suf]; norm_app; reflexivity. }
     rewrite Ep.
-    apply (IH Hc Hp (c + 2) (SArr n :: l) (good_arr c l n Hg)); try assumption.
-    + intros H. congruence.
-    + intros _. exact I.
-    + lia.
+    rewrite (IH Hc (c + 2) (SArr n :: l) (good_arr c l n Hg)); try assumption; [|intros H; congruence|lia].
+    cbn [m_sufs fold_right m_suf chk_sufs]. fold (m_sufs l ty).
+    destruct (fit n (m_sufs l ty)), (chk_sufs l ty), (chk_dd dd' (array_of (m_sufs l ty) (len_of n))); reflexivity.
   - (* DFunc *)
-    intros dd' IH ps IHps Hc Hp c l Hg Hfun _ fuel ty rest Hs Hf.
-    cbn [c11_ok_dd chibicc_ok_dd cost_dd name_of_dd m_apply_dd is_func_dd] in *.
+    intros dd' IH ps IHps Hc c l Hg Hfun fuel ty rest Hs Hf.
+    cbn [c11_ok_dd cost_dd name_of_dd m_apply_dd is_func_dd chk_dd] in *.
     specialize (Hfun eq_refl). subst l.
     apply andb_prop in Hc. destruct Hc as [Hc Hcps]. apply andb_prop in Hc. destruct Hc as [Hnf Hc].
-    apply andb_prop in Hp. destruct Hp as [Hp Hpps]. apply andb_prop in Hp. destruct Hp as [Hne Hp].
-    apply negb_true_iff in Hnf. apply negb_true_iff in Hne.
+    apply negb_true_iff in Hnf.
     assert (Hg' : good (1 + cost_params ps) [SFun ps]).
     { intros fuel' ty' rest' Hs' Hf'. destruct fuel' as [|f']; [lia|].
-      rewrite type_suffix_S. cbn [print_sufs print_suf app type_suffix_body m_sufs fold_right m_suf].
+      rewrite type_suffix_S. cbn [print_sufs print_suf app type_suffix_body m_sufs fold_right m_suf chk_sufs andb].
       rewrite app_nil_r, app_cons_assoc.
-      apply (IHps Hcps Hpps). lia. }
+      apply (IHps Hcps). lia. }
     assert (Ep : print_dd (DFunc dd' ps) ++ print_sufs [] ++ rest
                  = print_dd dd' ++ print_sufs [SFun ps] ++ rest).
     { cbn [print_dd print_sufs print_suf]. norm_app. reflexivity. }
-    rewrite Ep. cbn [m_sufs fold_right].
-    apply (IH Hc Hp (1 + cost_params ps) [SFun ps] Hg'); try assumption.
-    + intros H. congruence.
-    + intros H. congruence.
-    + lia.
+    rewrite Ep. cbn [m_sufs fold_right chk_sufs].
+    rewrite (IH Hc (1 + cost_params ps) [SFun ps] Hg'); try assumption; [|intros H; congruence|lia].
+    cbn [m_sufs fold_right m_suf chk_sufs andb].
+    destruct (chk_params ps), (chk_dd dd' (MFunc ty (m_params ps) (m_variadic ps))); reflexivity.
   - (* PUnspec *)
-    intros _ _ fuel ret rest Hf. cbn [cost_params print_params app m_params m_variadic] in *.
+    intros _ fuel ret rest Hf. cbn [cost_params print_params app m_params m_variadic chk_params] in *.
     destruct fuel as [|[|f]]; [lia|lia|]. reflexivity.
   - (* PVoid *)
-    intros _ _ fuel ret rest Hf. cbn [cost_params print_params app m_params m_variadic] in *.
+    intros _ fuel ret rest Hf. cbn [cost_params print_params app m_params m_variadic chk_params] in *.
     destruct fuel as [|f]; [lia|]. reflexivity.
   - (* PList *)
-    intros l IH v Hc Hp fuel ret rest Hf. cbn [c11_ok_params chibicc_ok_params cost_params print_params m_params m_variadic] in *.
+    intros l IH v Hc fuel ret rest Hf. cbn [c11_ok_params cost_params print_params m_params m_variadic chk_params] in *.
     destruct fuel as [|f]; [lia|].
     rewrite <- app_assoc. change ((if v then [TComma; TEllipsis] else []) ++ TRParen :: rest) with (ptail v rest).
     rewrite func_params_loop by (intros r; apply plist_not_void; exact Hc).
-    apply (IH Hc Hp f ret [] rest v). lia.
+    apply (IH Hc f ret [] rest v). lia.
   - (* POne *)
-    intros p IH Hc Hp fuel ret acc rest v Hf. destruct p as [b d].
-    cbn [c11_ok_plist chibicc_ok_plist cost_plist print_plist m_plist] in *.
+    intros p IH Hc fuel ret acc rest v Hf. destruct p as [b d].
+    cbn [c11_ok_plist cost_plist print_plist m_plist chk_plist chk_param] in *.
     destruct fuel as [|[|f]]; [lia|lia|].
-    specialize (IH Hc Hp (S f) (ptail v rest) (ptail_stops v rest)). cbn [cost_param] in IH, Hf.
-    rewrite (loop_param (S f) b d (ptail v rest) ret acc _ (IH ltac:(lia))). cbn [fst snd].
+    specialize (IH Hc (S f) (ptail v rest) (ptail_stops v rest)). cbn [cost_param] in IH, Hf.
+    rewrite loop_param, IH by lia.
+    destruct (chk d (MBase b)); cbn [bind fst snd]; [|reflexivity].
     rewrite loop_tail by discriminate. cbn [rev m_param]. reflexivity.
   - (* PCons *)
-    intros p IH l IHl Hc Hp fuel ret acc rest v Hf. destruct p as [b d].
-    cbn [c11_ok_plist chibicc_ok_plist cost_plist print_plist m_plist] in *.
-    apply andb_prop in Hc. destruct Hc as [Hc Hcl]. apply andb_prop in Hp. destruct Hp as [Hp Hpl].
+    intros p IH l IHl Hc fuel ret acc rest v Hf. destruct p as [b d].
+    cbn [c11_ok_plist cost_plist print_plist m_plist chk_plist chk_param] in *.
+    apply andb_prop in Hc. destruct Hc as [Hc Hcl].
     destruct fuel as [|f]; [lia|].
     assert (Hs : stops (TComma :: print_plist l ++ ptail v rest)) by reflexivity.
-    specialize (IH Hc Hp f _ Hs). cbn [cost_param] in IH, Hf.
+    specialize (IH Hc f _ Hs). cbn [cost_param] in IH, Hf.
     rewrite <- app_assoc. cbn [app].
-    rewrite (loop_param f b d _ ret acc _ (IH ltac:(lia))). cbn [fst snd].
-    specialize (IHl Hcl Hpl f ret ((name_of d, adjust_param (m_apply d (MBase b))) :: acc) rest v).
-    cbn [is_nil app] in IHl. rewrite IHl by lia. cbn [rev m_param]. rewrite <- app_assoc. reflexivity.
+    rewrite loop_param, IH by lia.
+    destruct (chk d (MBase b)); cbn [bind fst snd andb]; [|reflexivity].
+    specialize (IHl Hcl f ret ((name_of d, adjust_param (m_apply d (MBase b))) :: acc) rest v).
+    cbn [is_nil app] in IHl. rewrite IHl by lia.
+    destruct (chk_plist l); [|reflexivity]. cbn [rev m_param]. rewrite <- app_assoc. reflexivity.
   - (* Param *)
-    intros b d IH Hc Hp fuel rest Hs Hf. cbn [c11_ok_param chibicc_ok_param cost_param] in *.
+    intros b d IH Hc fuel rest Hs Hf. cbn [c11_ok_param cost_param] in *.
     apply andb_prop in Hc. destruct Hc as [Hc _]. apply IH; assumption.
 Qed.
 
@@ -582,37 +634,39 @@ Proof.
 Qed.
 
 (* ------------------------------------------------------------------ declarator(): headline of part 1 *)
-Theorem declarator_print : forall d, c11_ok d = true -> chibicc_ok d = true ->
+Theorem declarator_print : forall d, c11_ok d = true ->
   forall fuel ty rest, stops rest -> cost d <= fuel ->
-    declarator fuel (print_decl d ++ rest) ty = Ok (name_of d, m_apply d ty, rest).
+    declarator fuel (print_decl d ++ rest) ty
+    = if chk d ty then Ok (name_of d, m_apply d ty, rest) else TooLarge.
 Proof. exact (proj1 parse_all). Qed.
 
-Theorem parse_declarator_print : forall d ty rest, c11_ok d = true -> chibicc_ok d = true -> stops rest ->
-  parse_declarator (print_decl d ++ rest) ty = Ok (name_of d, m_apply d ty, rest).
+Theorem parse_declarator_print : forall d ty rest, c11_ok d = true -> stops rest ->
+  parse_declarator (print_decl d ++ rest) ty
+  = if chk d ty then Ok (name_of d, m_apply d ty, rest) else TooLarge.
 Proof.
-  intros d ty rest Hc Hp Hs. unfold parse_declarator.
+  intros d ty rest Hc Hs. unfold parse_declarator.
   apply declarator_print; try assumption. apply fuel_enough.
 Qed.
 
-Theorem func_params_print : forall ps, c11_ok_params ps = true -> chibicc_ok_params ps = true ->
+Theorem func_params_print : forall ps, c11_ok_params ps = true ->
   forall fuel ret rest, cost_params ps <= fuel ->
-    func_params fuel (print_params ps ++ TRParen :: rest) ret = Ok (MFunc ret (m_params ps) (m_variadic ps), rest).
+    func_params fuel (print_params ps ++ TRParen :: rest) ret
+    = if chk_params ps then Ok (MFunc ret (m_params ps) (m_variadic ps), rest) else TooLarge.
 Proof. exact (proj1 (proj2 (proj2 parse_all))). Qed.
 
 (* ------------------------------------------------------------------ abstract_declarator() *)
 Definition A_decl (d : decl) : Prop :=
-  c11_ok d = true -> chibicc_ok d = true -> name_of d = None ->
+  c11_ok d = true -> name_of d = None ->
   forall fuel ty rest, stops rest -> cost d <= fuel ->
-    abstract_declarator fuel (print_decl d ++ rest) ty = Ok (m_apply d ty, rest).
+    abstract_declarator fuel (print_decl d ++ rest) ty = if chk d ty then Ok (m_apply d ty, rest) else TooLarge.
 
 Definition A_dd (dd : direct) : Prop :=
-  c11_ok_dd dd = true -> chibicc_ok_dd dd = true -> name_of_dd dd = None ->
+  c11_ok_dd dd = true -> name_of_dd dd = None ->
   forall c l, good c l ->
     (is_func_dd dd = true -> l = []) ->
-    (is_empty_dd dd = true -> match l with SFun _ :: _ => False | _ => True end) ->
   forall fuel ty rest, stops rest -> cost_dd dd + c <= fuel ->
     abstract_part fuel (print_dd dd ++ print_sufs l ++ rest) ty
-    = Ok (m_apply_dd dd (m_sufs l ty), rest).
+    = if chk_dd dd (m_sufs l ty) && chk_sufs l ty then Ok (m_apply_dd dd (m_sufs l ty), rest) else TooLarge.
 
 Theorem abstract_all : (forall d, A_decl d) /\ (forall dd, A_dd dd).
 Proof.
@@ -621,89 +675,85 @@ Proof.
   2: { split; [exact (proj1 H)|exact (proj1 (proj2 H))]. }
   apply decl_mutind; try (intros; exact I).
   - (* DPtr *)
-    intros q d IH Hc Hp Hn fuel ty rest Hs Hf. cbn [c11_ok chibicc_ok cost name_of m_apply] in *.
+    intros q d IH Hc Hn fuel ty rest Hs Hf. cbn [c11_ok cost name_of m_apply chk] in *.
     destruct fuel as [|f]; [pose proof (cost_pos d); lia|].
     rewrite abstract_star by exact Hs. apply IH; assumption.
   - (* DDirect *)
-    intros dd IH Hc Hp Hn fuel ty rest Hs Hf. cbn [c11_ok chibicc_ok cost name_of m_apply print_decl] in *.
+    intros dd IH Hc Hn fuel ty rest Hs Hf. cbn [c11_ok cost name_of m_apply print_decl chk] in *.
     destruct fuel as [|f]; [lia|].
     rewrite abstract_declarator_S, pointers_nostar by (apply hd_dd_rest, Hs). cbn [fst snd].
     assert (Hg := good_nil).
-    specialize (IH Hc Hp Hn 1 [] Hg (fun _ => eq_refl) (fun _ => I) f ty rest Hs).
-    cbn [print_sufs app m_sufs fold_right] in IH. apply IH. lia.
+    specialize (IH Hc Hn 1 [] Hg (fun _ => eq_refl) f ty rest Hs).
+    cbn [print_sufs app m_sufs fold_right chk_sufs] in IH. rewrite andb_true_r in IH. apply IH. lia.
   - (* DIdent *)
-    intros x _ _ Hn c l Hg _ He fuel ty rest Hs Hf. cbn [cost_dd name_of_dd m_apply_dd] in *. subst x.
-    cbn [print_dd app]. specialize (He eq_refl).
-    assert (E : abstract_part fuel (print_sufs l ++ rest) ty = type_suffix fuel (print_sufs l ++ rest) ty).
-    { destruct l as [|s l].
-      - cbn [print_sufs app]. destruct rest as [|t r]; [reflexivity|].
-        cbn [stops hd_in] in Hs. destruct t; try discriminate Hs; reflexivity.
-      - destruct s as [n|ps]; [|contradiction]. destruct n; reflexivity. }
-    rewrite E. apply Hg; [exact Hs|lia].
+    intros x _ Hn c l Hg _ fuel ty rest Hs Hf. cbn [cost_dd name_of_dd m_apply_dd chk_dd andb] in *. subst x.
+    cbn [print_dd app]. destruct (plain_sufs l rest Hs) as [E1 _]. unfold abstract_part. rewrite E1.
+    apply Hg; [exact Hs|lia].
   - (* DParen *)
-    intros d IH Hc Hp Hn c l Hg _ _ fuel ty rest Hs Hf.
-    cbn [c11_ok_dd chibicc_ok_dd cost_dd name_of_dd m_apply_dd print_dd] in *.
-    apply andb_prop in Hc. destruct Hc as [_ Hc].
-    cbn [app abstract_part]. rewrite <- !app_assoc. cbn [app].
+    intros d IH Hc Hn c l Hg _ fuel ty rest Hs Hf.
+    cbn [c11_ok_dd cost_dd name_of_dd m_apply_dd print_dd chk_dd] in *.
+    apply andb_prop in Hc. destruct Hc as [Hne Hc]. apply negb_true_iff in Hne.
+    cbn [app]. rewrite <- !app_assoc. cbn [app]. unfold abstract_part.
+    rewrite (nested_start_paren d _ Hne).
     assert (Hs' : stops (TRParen :: print_sufs l ++ rest)) by reflexivity.
-    rewrite (IH Hc Hp Hn fuel dummy _ Hs') by lia. cbn [bind snd].
-    rewrite (Hg fuel ty rest Hs) by lia. cbn [bind fst snd].
-    rewrite (IH Hc Hp Hn fuel (m_sufs l ty) _ Hs') by lia. reflexivity.
+    rewrite (IH Hc Hn fuel dummy _ Hs') by lia.
+    destruct (chk d dummy); cbn [bind snd andb]; [|reflexivity].
+    rewrite (Hg fuel ty rest Hs) by lia.
+    destruct (chk_sufs l ty); cbn [bind fst snd]; [|rewrite andb_false_r; reflexivity].
+    rewrite (IH Hc Hn fuel (m_sufs l ty) _ Hs') by lia.
+    destruct (chk d (m_sufs l ty)); reflexivity.
   - (* DArray *)
-    intros dd' IH n Hc Hp Hn c l Hg Hfun _ fuel ty rest Hs Hf.
-    cbn [c11_ok_dd chibicc_ok_dd cost_dd name_of_dd m_apply_dd is_func_dd] in *.
+    intros dd' IH n Hc Hn c l Hg Hfun fuel ty rest Hs Hf.
+    cbn [c11_ok_dd cost_dd name_of_dd m_apply_dd is_func_dd chk_dd] in *.
     apply andb_prop in Hc. destruct Hc as [Hc _]. apply andb_prop in Hc. destruct Hc as [Hnf Hc].
-    apply andb_prop in Hp. destruct Hp as [Hp _].
     apply negb_true_iff in Hnf.
     assert (Ep : print_dd (DArray dd' n) ++ print_sufs l ++ rest
                  = print_dd dd' ++ print_sufs (SArr n :: l) ++ rest).
     { destruct n; cbn [print_dd print_sufs print_suf]; norm_app; reflexivity. }
     rewrite Ep.
-    apply (IH Hc Hp Hn (c + 2) (SArr n :: l) (good_arr c l n Hg)); try assumption.
-    + intros H. congruence.
-    + intros _. exact I.
-    + lia.
+    rewrite (IH Hc Hn (c + 2) (SArr n :: l) (good_arr c l n Hg)); try assumption; [|intros H; congruence|lia].
+    cbn [m_sufs fold_right m_suf chk_sufs]. fold (m_sufs l ty).
+    destruct (fit n (m_sufs l ty)), (chk_sufs l ty), (chk_dd dd' (array_of (m_sufs l ty) (len_of n))); reflexivity.
   - (* DFunc *)
-    intros dd' IH ps _ Hc Hp Hn c l Hg Hfun _ fuel ty rest Hs Hf.
-    cbn [c11_ok_dd chibicc_ok_dd cost_dd name_of_dd m_apply_dd is_func_dd] in *.
+    intros dd' IH ps _ Hc Hn c l Hg Hfun fuel ty rest Hs Hf.
+    cbn [c11_ok_dd cost_dd name_of_dd m_apply_dd is_func_dd chk_dd] in *.
     specialize (Hfun eq_refl). subst l.
     apply andb_prop in Hc. destruct Hc as [Hc Hcps]. apply andb_prop in Hc. destruct Hc as [Hnf Hc].
-    apply andb_prop in Hp. destruct Hp as [Hp Hpps]. apply andb_prop in Hp. destruct Hp as [Hne Hp].
-    apply negb_true_iff in Hnf. apply negb_true_iff in Hne.
+    apply negb_true_iff in Hnf.
     assert (Hg' : good (1 + cost_params ps) [SFun ps]).
     { intros fuel' ty' rest' Hs' Hf'. destruct fuel' as [|f']; [lia|].
-      rewrite type_suffix_S. cbn [print_sufs print_suf app type_suffix_body m_sufs fold_right m_suf].
+      rewrite type_suffix_S. cbn [print_sufs print_suf app type_suffix_body m_sufs fold_right m_suf chk_sufs andb].
       rewrite app_nil_r, app_cons_assoc.
-      apply (func_params_print ps Hcps Hpps). lia. }
+      apply (func_params_print ps Hcps). lia. }
     assert (Ep : print_dd (DFunc dd' ps) ++ print_sufs [] ++ rest
                  = print_dd dd' ++ print_sufs [SFun ps] ++ rest).
     { cbn [print_dd print_sufs print_suf]. norm_app. reflexivity. }
-    rewrite Ep. cbn [m_sufs fold_right].
-    apply (IH Hc Hp Hn (1 + cost_params ps) [SFun ps] Hg'); try assumption.
-    + intros H. congruence.
-    + intros H. congruence.
-    + lia.
+    rewrite Ep. cbn [m_sufs fold_right chk_sufs].
+    rewrite (IH Hc Hn (1 + cost_params ps) [SFun ps] Hg'); try assumption; [|intros H; congruence|lia].
+    cbn [m_sufs fold_right m_suf chk_sufs andb].
+    destruct (chk_params ps), (chk_dd dd' (MFunc ty (m_params ps) (m_variadic ps))); reflexivity.
 Qed.
 
-Theorem abstract_declarator_print : forall d, c11_ok d = true -> chibicc_ok d = true -> name_of d = None ->
+Theorem abstract_declarator_print : forall d, c11_ok d = true -> name_of d = None ->
   forall fuel ty rest, stops rest -> cost d <= fuel ->
-    abstract_declarator fuel (print_decl d ++ rest) ty = Ok (m_apply d ty, rest).
+    abstract_declarator fuel (print_decl d ++ rest) ty = if chk d ty then Ok (m_apply d ty, rest) else TooLarge.
 Proof. exact (proj1 abstract_all). Qed.
 
 Theorem parse_abstract_print : forall d ty rest,
-  c11_ok d = true -> chibicc_ok d = true -> name_of d = None -> stops rest ->
-  parse_abstract (print_decl d ++ rest) ty = Ok (m_apply d ty, rest).
+  c11_ok d = true -> name_of d = None -> stops rest ->
+  parse_abstract (print_decl d ++ rest) ty = if chk d ty then Ok (m_apply d ty, rest) else TooLarge.
 Proof.
-  intros d ty rest Hc Hp Hn Hs. unfold parse_abstract.
+  intros d ty rest Hc Hn Hs. unfold parse_abstract.
   apply abstract_declarator_print; try assumption. apply fuel_enough.
 Qed.
 
 (* a type name: declaration specifiers (one token) and an abstract declarator *)
 Theorem parse_typename_print : forall b d rest,
-  c11_ok d = true -> chibicc_ok d = true -> name_of d = None -> stops rest ->
-  parse_typename (TBase b :: print_decl d ++ rest) = Ok (m_apply d (MBase b), rest).
+  c11_ok d = true -> name_of d = None -> stops rest ->
+  parse_typename (TBase b :: print_decl d ++ rest)
+  = if chk d (MBase b) then Ok (m_apply d (MBase b), rest) else TooLarge.
 Proof.
-  intros b d rest Hc Hp Hn Hs. unfold parse_typename, typename.
+  intros b d rest Hc Hn Hs. unfold parse_typename, typename.
   apply abstract_declarator_print; try assumption.
   pose proof (fuel_enough d rest) as H. unfold fuel_for in *. cbn [length]. lia.
 Qed.
